@@ -44,7 +44,10 @@ def generate(ctx):
                "interp": interp, "cob": rng.choice([0.0, None, -7.5]),
                "sob": rng.choice([False, None, True]), "B": rng.randint(1, 3),
                "shape": list(rng.choice([(3,), (2, 2), (1,)])), "inplace": rng.random() < 0.5,
-               "Q": rng.choice([1.0, 2.5, -1.5]), "tc": rng.choice([2.0, 5.0, 20.0]), "tr": rng.choice([0.5, 1.0]),
+               **({"Q": rng.choice([1.0, 2.5, -1.5]), "tc": rng.choice([2.0, 5.0, 20.0]), "tr": rng.choice([0.5, 1.0])}
+                  if rng.random() < 0.65 else
+                  {"Q": round(rng.choice([-1, 1]) * rng.uniform(0.05, 4.0), 3), "tc": round(rng.uniform(0.8, 40.0), 3),
+                   "tr": round(rng.uniform(0.1, 3.0), 3)}),
                "p": rng.choice([0.2, 0.5]), "seed": rng.randrange(1 << 30), "queries": queries,
                # step time reached through the dt setter after construction instead of the constructor
                "built_dt": rng.choice([None, None, None, 2 * dt, 0.5 * dt, dt + 0.25])}
